@@ -63,12 +63,13 @@ Definition plain (v : version) (st : Z) (hs : list (bytes * bytes)) (raw : heade
      e_sig := []; e_payload := toy_body; e_taint := false |}.
 
 (* MiEncodePayload(16) + AddSignatureHeader with the toy signer *)
-Definition toy_sign (e0 : exchange) (d x : Z) : R exchange :=
+Definition toy_sign_v (e0 : exchange) (validity : bytes) (d x : Z) : R exchange :=
   let* e1 := mi_encode_payload sha256 e0 16 in
-  let* m := signed_message e1 (Some (sha256 toy_cert)) toy_validity d x in
-  let* sv := signature_header_value sha256 e1 [toy_cert] toy_cert_url toy_validity d x
+  let* m := signed_message e1 (Some (sha256 toy_cert)) validity d x in
+  let* sv := signature_header_value sha256 e1 [toy_cert] toy_cert_url validity d x
                (sha256 (7 :: m)) in
   Ok (with_sig e1 sv).
+Definition toy_sign (e0 : exchange) (d x : Z) : R exchange := toy_sign_v e0 toy_validity d x.
 Definition get (r : R exchange) : exchange :=
   match r with Ok e => e | _ => plain V1b3 0 [] [] end.
 
